@@ -50,3 +50,33 @@ Theorem C19_repair_affine : forall l h b u : Q,
   lower_val (N := Qn) RandInit l h b u = (l + u * (h - l))%Q /\ upper_val (N := Qn) RandInit l h b u = (h - u * (h - l))%Q.
 Proof. intros. repeat split; reflexivity. Qed.
 Print Assumptions C19_repair_affine.
+
+(* randomly drawn parents: the rejection sampling of des.py, column by column.  [cols_hit targets rows segs P]: the parent
+   matrix P grows from the fixed prefix `rows` by one column per segment (col0, hs, fuel); [rows_hit]/[row_hit]: for every row
+   the full history of draws made for it in that column is col0[r] :: hs[r], the entry it ends with is the LAST of them, it is
+   admissible (not the target, not yet in the row) and every earlier one was inadmissible; [col_events]: the stream consumed
+   is exactly the initial draw for all rows followed by the redraw rounds, each round delivering the next history element of
+   every row that is still unfinished, in row order - so every delivered value belongs to exactly one row's history, and a row
+   receives nothing after its first admissible value.  Under i.i.d. uniform draws the first admissible element of a row's
+   own history is uniform on its admissible individuals, independently of the other rows (that step is probability: on paper). *)
+From PV Require Import Model.Select Proofs.SelectHitP.
+Theorem C19_parents_are_first_admissible_draws :
+  forall (T : Type) n_pop targets k rows (s : list (event T)) P s',
+    fill_cols (T := T) k n_pop rows targets s = Ok (P, s') -> length targets = length rows ->
+    exists segs, length segs = k /\ cols_hit targets rows segs P /\ s = concat (map (col_events n_pop (length targets)) segs) ++ s'.
+Proof. intros T n_pop targets. exact (fill_cols_first_hit n_pop targets). Qed.
+Print Assumptions C19_parents_are_first_admissible_draws.
+
+Theorem C19_rand_parents_are_first_admissible_draws :
+  forall (T : Type) n_pop n_select n_parents ranks (s : list (event T)) P s',
+    select (T := T) SRand n_pop n_select n_parents ranks s = Ok (P, s') ->
+    exists segs, length segs = n_parents /\ cols_hit (seq 0 n_select) (repeat [] n_select) segs P /\
+      s = concat (map (col_events n_pop n_select) segs) ++ s'.
+Proof. intros T. exact (select_rand_first_hit (T := T)). Qed.
+Print Assumptions C19_rand_parents_are_first_admissible_draws.
+
+(* non-vacuity: 4 individuals, 2 rows; row 0 first draws its own target (0) and is redrawn once, row 1 is accepted at once *)
+Example C19_first_hit_nonvacuous :
+  fill_cols (T := Q) 1 4 [[]; []] [0; 1]%nat [EChoice 4 2 [0; 2]%nat; EChoice 4 1 [3]%nat] = Ok ([[3]; [2]]%nat, []) /\
+  rows_hit [[]; []] [0; 1]%nat [0; 2]%nat [3; 2]%nat [[3]; []]%nat.
+Proof. split; [vm_compute; reflexivity|]. cbn. unfold row_hit. cbn. repeat split; auto; discriminate. Qed.
